@@ -18,6 +18,8 @@ import (
 	"strings"
 	"time"
 
+	"github.com/cenkalti/backoff/v4"
+
 	"github.com/restic/restic/internal/backend"
 	"github.com/restic/restic/internal/data"
 	"github.com/restic/restic/internal/repository"
@@ -180,16 +182,22 @@ func (h *c15Hist) mutateSource(rng *vrng) {
 	}
 }
 
-func c15History(c *vctx, rng *vrng, num int, steps int) error {
+func c15History(c *vctx, rng *vrng, num int, steps int, family int) error {
+	v1 := family == 2
 	e := c15Venv(c, fmt.Sprintf("h%d", num))
 	defer os.RemoveAll(e.base)
 	h := &c15Hist{e: e, pn: &c15Names{m: map[string]int{}}, in: &c15Names{m: map[string]int{}}, sn: &c15Names{m: map[string]int{}}, bn: &c15Names{m: map[string]int{}}}
 	h.src = filepath.Join(e.base, "src")
 	_ = os.MkdirAll(h.src, 0o755)
-	if _, _, err := e.cli("init"); err != nil {
+	initArgs := []string{"init"}
+	if v1 {
+		initArgs = append(initArgs, "--repository-version", "1")
+	}
+	if _, _, err := e.cli(initArgs...); err != nil {
 		return fmt.Errorf("init: %w", err)
 	}
 	var human []string
+	migrateCut := 0 // v1 family: the migration is tried with a cut at op 0, 1, 2, ... until it goes through
 	for step := 0; step < steps; step++ {
 		ctx, cancel := context.WithCancel(context.Background())
 		// choose a command
@@ -201,6 +209,13 @@ func c15History(c *vctx, rng *vrng, num int, steps int) error {
 		var args []string
 		x := rng.intn(100)
 		switch {
+		case family == 1 && step < 3:
+			h.mutateSource(rng)
+			args = []string{"backup", h.src}
+		case family == 1 && step == 3:
+			args = []string{"forget", "--keep-last", "1", "--prune"}
+		case v1 && step >= 1 && (step >= 2 || x < 50):
+			args = []string{"migrate", "upgrade_repo_v2"}
 		case step == 0 || len(snaps) == 0 || x < 30:
 			h.mutateSource(rng)
 			args = []string{"backup", h.src}
@@ -240,10 +255,45 @@ func c15History(c *vctx, rng *vrng, num int, steps int) error {
 				cut = rng.intn(16)
 			}
 		}
+		// single-op fault: exactly one modifying operation fails permanently, everything else proceeds
+		single, singleSnap := -1, false
+		if args[0] == "migrate" {
+			cut = migrateCut
+			migrateCut++
+		} else if cut < 0 && rng.chance(25) {
+			single = rng.intn(8)
+		}
+		if args[0] == "forget" && rng.chance(55) {
+			cut, single, singleSnap = -1, rng.intn(2), true
+		}
+		if family == 1 && step < 3 {
+			cut, single = -1, -1
+		}
+		if family == 1 && step == 3 {
+			cut, single, singleSnap = -1, rng.intn(2), true
+		}
 		e.rec.Reset()
 		e.rec.CutAt = cut
+		if single >= 0 {
+			cnt, fired := 0, false
+			e.rec.OnOp = func(o *vop) error {
+				if !o.modifying() || o.Type == backend.LockFile {
+					return nil
+				}
+				if singleSnap && !(o.Op == "Remove" && o.Type == backend.SnapshotFile) {
+					return nil
+				}
+				cnt++
+				if cnt-1 == single && !fired {
+					fired = true
+					return backoff.Permanent(errVerifCut)
+				}
+				return nil
+			}
+		}
 		_, _, cerr := e.cli(args...)
 		e.rec.CutAt = -1
+		e.rec.OnOp = nil
 		mods := e.rec.Mods()
 		crashed := false
 		for _, o := range e.rec.Ops() {
@@ -251,14 +301,22 @@ func c15History(c *vctx, rng *vrng, num int, steps int) error {
 				crashed = true
 			}
 		}
-		if cut >= 0 {
+		if cut >= 0 || single >= 0 {
 			e.rec.Reset()
 			_, _, _ = e.cli("unlock", "--remove-all")
 		}
+		if args[0] == "migrate" && cerr == nil && !crashed {
+			v1 = false
+		}
 		repo, err := e.openRepo(ctx)
 		if err != nil {
+			// the repository cannot even be opened any more: the real check decides, the history ends here
 			cancel()
-			return err
+			_, cse, kerr := e.cli("check", "--read-data")
+			human = append(human, args[0]+fmt.Sprintf(":cut@%d", cut))
+			term := fmt.Sprintf("mk %s [] [] [] %s", coqList(h.ops), coqBool(kerr != nil))
+			c.Case("hist-unopenable", true, len(h.ops), term, fmt.Sprintf("%s -> repository cannot be opened (%v) check-failed=%v %s", strings.Join(human, " "), err, kerr != nil, cse))
+			return nil
 		}
 		if err := repo.LoadIndex(ctx, restic.NoopTerminalCounterFactory); err != nil {
 			cancel()
@@ -281,7 +339,12 @@ func c15History(c *vctx, rng *vrng, num int, steps int) error {
 			cmd += "-" + strings.TrimLeft(args[1], "-")
 		}
 		st := "ok"
-		if crashed {
+		if crashed && single >= 0 {
+			st = fmt.Sprintf("fail1@%d", single)
+			if singleSnap {
+				st = fmt.Sprintf("fail1-rmsnap@%d", single)
+			}
+		} else if crashed {
 			st = fmt.Sprintf("cut@%d", cut)
 		} else if cerr != nil {
 			st = "err"
@@ -311,7 +374,7 @@ func engineC15(c *vctx) error {
 	nh := c.n(6, 120)
 	for i := 0; i < nh; i++ {
 		rng := c.rng.fork()
-		if err := c15History(c, rng, i, 5+rng.intn(6)); err != nil {
+		if err := c15History(c, rng, i, 5+rng.intn(6), i%3); err != nil {
 			return fmt.Errorf("history %d: %w", i, err)
 		}
 	}
